@@ -1,7 +1,7 @@
 SPECIFICATION Spec
 CONSTANTS
   H = 5
-  SampleMod = 350
+  SampleMod = 250
   Mode = "ops"
 CHECK_DEADLOCK FALSE
 INVARIANTS
